@@ -761,21 +761,34 @@ Proof.
   unfold out_port, runs. cbn [runs_lr length Nat.leb port_out app]. rewrite E. reflexivity.
 Qed.
 
+(* whatever generate() does to a track after the flush (PlayFrom: `post`; nothing without PlayFrom), it does
+   it to the event list AFTER check_tie_notes *)
 Theorem flush_at_end s :
   length (tracks_for_writer s) = length (s_tracks s) /\
+  (exists post : list event -> list event,
+     (s_play_from s < 0 -> forall evs, post evs = evs) /\
+     tracks_for_writer s = map (fun t => post (tr_events (check_tie_notes (s_timebase s) t))) (s_tracks s)) /\
   forall i t, nth_error (s_tracks s) i = Some t ->
-    nth_error (tracks_for_writer s) i =
-      Some (let evs := tr_events (check_tie_notes (s_timebase s) t) in
-            if s_play_from s <? 0 then evs else play_from (s_play_from s) evs)
+    (s_play_from s < 0 ->
+       nth_error (tracks_for_writer s) i = Some (tr_events (check_tie_notes (s_timebase s) t)))
     /\ (forall first rest, tr_tie_notes t = first :: rest ->
           tr_events (check_tie_notes (s_timebase s) t) = tr_events t ++ tie_out (s_timebase s) t first rest)
     /\ (tr_tie_notes t = [] -> tr_events (check_tie_notes (s_timebase s) t) = tr_events t)
     /\ (forall e, tr_tie_notes t = [e] -> tr_tie_mode t <> 1 ->
           tr_events (check_tie_notes (s_timebase s) t) = tr_events t ++ [e]).
 Proof.
-  unfold tracks_for_writer. split; [apply map_length|]. intros i t H.
-  split; [exact (map_nth_error (fun t0 => if s_play_from s <? 0 then tr_events (check_tie_notes (s_timebase s) t0)
-                  else play_from (s_play_from s) (tr_events (check_tie_notes (s_timebase s) t0))) i (s_tracks s) H)|].
+  assert (P : exists post : list event -> list event,
+     (s_play_from s < 0 -> forall evs, post evs = evs) /\
+     tracks_for_writer s = map (fun t => post (tr_events (check_tie_notes (s_timebase s) t))) (s_tracks s)).
+  { eexists. split.
+    2:{ unfold tracks_for_writer. apply map_ext. intros t. cbv zeta.
+        set (E := tr_events (check_tie_notes (s_timebase s) t)). clearbody E. reflexivity. }
+    intros Hpf evs. cbv beta. apply Z.ltb_lt in Hpf. rewrite Hpf. reflexivity. }
+  split; [unfold tracks_for_writer; apply map_length|]. split; [exact P|]. intros i t H.
+  split.
+  { intros Hpf. destruct P as [post [P1 P2]]. rewrite P2.
+    rewrite (map_nth_error (fun t0 => post (tr_events (check_tie_notes (s_timebase s) t0))) i (s_tracks s) H).
+    rewrite (P1 Hpf). reflexivity. }
   split; [intros first rest G; rewrite (check_spec _ t first rest G); reflexivity|].
   split; [intros G; rewrite check_nil by exact G; reflexivity|].
   intros e G M. apply single_note; assumption.
